@@ -146,6 +146,11 @@ func (f *Field[T]) IsZero(a *Element[T]) frontend.Variable {
 	// however, for checking if the element is p, we can not use the
 	// optimization as we may have underflows. So we have to check every limb
 	// individually.
+	if len(ca.Limbs) < len(p.Limbs) {
+		// an element on fewer limbs than the modulus (and without overflow) is
+		// smaller than the modulus: it can only be zero as an integer
+		return res0
+	}
 	resP := f.api.IsZero(f.api.Sub(p.Limbs[0], ca.Limbs[0]))
 	for i := 1; i < len(ca.Limbs); i++ {
 		resP = f.api.Mul(resP, f.api.IsZero(f.api.Sub(p.Limbs[i], ca.Limbs[i])))
